@@ -28,6 +28,9 @@ PosMatches == \A m \in 1..NMol : ToSet(Ev.pos[m]) = IF m \in Ignored THEN {} ELS
 MovedMatches == {<<mv[1], mv[2]>> : mv \in ToSet(Ev.moved)} = {mn \in AllNodes : pos'[mn[1]][mn[2]] # pos[mn[1]][mn[2]]}
 Is(e) == l <= Len(Evs) /\ Ev.ev = e
 OfMol == Ev.mol = mol
+\* numeric sub-claims of C05 evaluated by the harness monitor (DESIGN 6) are required on every accepted placement
+\* (Ev.obs is a record of booleans; the raw numbers travel in Ev.raw and are not interpreted here)
+ObsOK == IF "obs" \in DOMAIN Ev THEN \A f \in DOMAIN Ev.obs : Ev.obs[f] ELSE TRUE
 Consume == PosMatches /\ MovedMatches /\ l' = l + 1 /\ tid' = tid
 Silent == l' = l /\ tid' = tid
 
@@ -36,9 +39,9 @@ TInit == /\ tid \in 1..Len(Traces) /\ l = 1
 TNext == \/ (SkipMolecule /\ Silent)
          \/ (Skip /\ Silent)
          \/ (Is("begin") /\ OfMol /\ BeginAttempt /\ Consume)
-         \/ (Is("root") /\ OfMol /\ Ev.node = Root /\ PlaceRootOk /\ Consume)
+         \/ (Is("root") /\ OfMol /\ Ev.node = Root /\ PlaceRootOk /\ ObsOK /\ Consume)
          \/ (Is("rootfail") /\ OfMol /\ PlaceRootFail /\ Consume)
-         \/ (Is("ok") /\ OfMol /\ step <= Len(Path) /\ Path[step] = <<Ev.prev, Ev.cur>> /\ PlaceOk /\ Consume)
+         \/ (Is("ok") /\ OfMol /\ step <= Len(Path) /\ Path[step] = <<Ev.prev, Ev.cur>> /\ PlaceOk /\ ObsOK /\ Consume)
          \/ (Is("fail") /\ OfMol /\ step <= Len(Path) /\ Path[step] = <<Ev.prev, Ev.cur>> /\ PlaceFail /\ Consume)
          \/ (Is("rewind") /\ OfMol /\ Rewind /\ Ev.to = step' /\ Len(Ev.placed) = Len(placed')
                /\ (\A i \in 1..Len(placed') : placed'[i] = <<Ev.placed[i][1], Ev.placed[i][2]>>) /\ Consume)
